@@ -5,25 +5,25 @@ OBLIGATIONS = [
        model='ie', defines={'REAL_TOL': 1, 'IE_BITS': 14, 'REFL': 0, 'ROT0': 0},
        what='Polygon::translate/scale/rotate/transform/mirror: every vertex image equals the documented affine map (cos/sin free symbols)',
        bound='2 vertices, coordinates / centres / factors in -3..3, magnification -3..3, (c,s) in -2..2; mirror lines axis-parallel or diagonal through any point',
-       variants=[{'OP': 0}, {'OP': 1}, {'OP': 2}, {'OP': 4}] + [{'OP': 3, 'REFL': f, 'ROT0': z} for f in (0, 1) for z in (0, 1)], unwind=6, timeout=300, retry_defines=['-DAXIS_ONLY'], nvec=40),
+       variants=[{'OP': 0}, {'OP': 1}, {'OP': 2}, {'OP': 4}] + [{'OP': 3, 'REFL': f, 'ROT0': z} for f in (0, 1) for z in (0, 1)], unwind=6, timeout=300, real_stub_syms=['cos', 'sin', 'sincos'], nvec=40),
     Ob('label_reference_placement', 'C10/placement.c', ['_ZN5gdstk5Label9transformEdbdNS_4Vec2E', '_ZN5gdstk9Reference9transformEdbdNS_4Vec2E'],
        model='ie', defines={'REAL_TOL': 1, 'IE_BITS': 14},
        what='Label::transform / Reference::transform: origin mapped, rotation sign-flipped under reflection and added, magnifications multiplied, reflection xor',
        bound='origin / translation in -3..3, integer rotations and magnifications -3..3, both prior reflection states',
-       variants=[{'KIND': k, 'REFL': f, 'ROT0': z} for k in (0, 1) for f in (0, 1) for z in (0, 1)], unwind=4, timeout=300, retry_defines=['-DAXIS_ONLY'], nvec=40),
+       variants=[{'KIND': k, 'REFL': f, 'ROT0': z} for k in (0, 1) for f in (0, 1) for z in (0, 1)], unwind=4, timeout=300, real_stub_syms=['cos', 'sin', 'sincos'], nvec=40),
     Ob('flexpath_maps', 'C10/flexpath.c', ['_ZN5gdstk8FlexPath9translateENS_4Vec2E', '_ZN5gdstk8FlexPath5scaleEdNS_4Vec2E', '_ZN5gdstk8FlexPath6rotateEdNS_4Vec2E', '_ZN5gdstk8FlexPath9transformEdbdNS_4Vec2E', '_ZN5gdstk8FlexPath6mirrorENS_4Vec2ES1_'],
        model='ie', defines={'REAL_TOL': 1, 'IE_BITS': 14, 'REFL': 0, 'ROT0': 0, 'SCALEW': 1},
        what='FlexPath::translate/scale/rotate/transform/mirror: spine mapped by the affine map; widths x|f| iff scale_width; offsets x|f| and negated under reflection; end extensions x|f|',
        bound='2 spine points, 2 elements, coordinates -3..3, half-widths 0..3, offsets -3..3, factors / magnifications -3..3 (negative included), both scale_width states',
        variants=[{'OP': 0}, {'OP': 2}, {'OP': 4}] + [{'OP': 1, 'SCALEW': w} for w in (0, 1)] + [{'OP': 3, 'REFL': f, 'ROT0': z, 'SCALEW': w} for f in (0, 1) for z in (0, 1) for w in (0, 1)],
-       unwind=6, timeout=300, retry_defines=['-DAXIS_ONLY'], nvec=40),
+       unwind=6, timeout=300, real_stub_syms=['cos', 'sin', 'sincos'], nvec=40),
     Ob('robustpath_algebra', 'C10/robust.c', ['_ZN5gdstk10RobustPath9translateENS_4Vec2E', '_ZN5gdstk10RobustPath12simple_scaleEd', '_ZN5gdstk10RobustPath5scaleEdNS_4Vec2E', '_ZN5gdstk10RobustPath13simple_rotateEd',
         '_ZN5gdstk10RobustPath6rotateEdNS_4Vec2E', '_ZN5gdstk10RobustPath12x_reflectionEv', '_ZN5gdstk10RobustPath9transformEdbdNS_4Vec2E'],
        model='ie', defines={'REAL_TOL': 1, 'IE_BITS': 14, 'REFL': 0, 'ROT0': 0, 'SCALEW': 1},
        what='RobustPath transform algebra from an arbitrary prior trafo: resulting trafo, width_scale, offset_scale, end extensions equal the composition',
        bound='prior trafo entries -2..2, factors -3..3, centres -2..2, (c,s) in -2..2; both scale_width states for the scaling operations',
        variants=[{'OP': 0}, {'OP': 3}, {'OP': 4}, {'OP': 5}] + [{'OP': o, 'SCALEW': w} for o in (1, 2) for w in (0, 1)] + [{'OP': 6, 'REFL': f, 'ROT0': z, 'SCALEW': w} for f in (0, 1) for z in (0, 1) for w in (0, 1)],
-       unwind=8, timeout=300, retry_defines=['-DAXIS_ONLY'], nvec=40),
+       unwind=8, timeout=300, real_stub_syms=['cos', 'sin', 'sincos'], nvec=40),
 ]
 BOUNDS = 'elements with 2 vertices / spine points, 2 path elements, integer parameters in -3..3, cos/sin free symbols in -2..2'
 OUTSIDE = 'transform-then-outline == outline-then-transform for paths (needs the outliners, C07/C08); floating-point rounding; mirror lines other than axis-parallel/diagonal; RobustPath::mirror (normalises the direction with a square root)'
